@@ -188,6 +188,8 @@ def run_stale(case):
 
 
 def gen_cases(tier, seed):
+    # the repository's own tests as a workload (vf/suite_monitor.py)
+    yield {'scenario': 'suite'}
     # whole "game sessions" (vf/session.py): the features used together,
     # judged by the self-consistency invariants of this property
     for i in range(150 if tier == 'quick' else 16 * 300):
@@ -376,6 +378,9 @@ class C01Driver(wl.Driver):
 
 
 def run_case(case):
+    if case.get('scenario') == 'suite':
+        from vf import suite_monitor
+        return suite_monitor.run_suite(ID)
     if case.get('scenario') == 'session':
         return session.run(case, 'C01')
     if case.get('scenario') == 'stale-mark':
